@@ -42,7 +42,7 @@ pub fn run(ctx: &Ctx) -> i32 {
         },
     };
     let cfg = cfg();
-    let n = ctx.scale(8000, 40000);
+    let n = ctx.scale(12000, 40000);
     let trees = check::draw(ctx.seed, 0xC01, n, 500);
     let mut specs: Vec<(usize, TypeSpec, Vec<&'static str>)> = Vec::new();
     for (i, t) in trees.iter().enumerate() {
